@@ -54,6 +54,8 @@ META = {
             "lshapes, dtype).",
     "trusted": ["torch's own shape functions / broadcasting (external kernel): their index maps are model definitions "
                 "compared with the real functions on every run",
+                "the syntactic alias rules of harness/extract.py behind lean/Pose/Gen/Purity.lean (conservative may-alias "
+                "analysis of the anchored sources; `source_purity` is a theorem about that table)",
                 "python `ast` extraction of HANDLED_FUNCTIONS (harness/extract.py)"],
     "assumptions": ["retain_restores assumes every patched torch attribute's (__module__, __name__) designates its own slot "
                     "or a non-torch slot (WellHomed) — checked on the real attributes at run time",
@@ -1622,6 +1624,10 @@ def stream_retain(ctx: Ctx):
     cases = [{"kind": "retain", "body": b, "fail_at": -1} for b in small_bodies(4 if ctx.quick else 6)]
     for _ in range(ctx.pick(60, 600)):
         cases.append({"kind": "retain", "body": gen_body(rng), "fail_at": -1})
+    from . import util_c06c as B3
+    for b in B3.deep_bodies():          # arbitrary nesting depth (5, 12, 40 contexts inside one another)
+        cases.append({"kind": "retain", "body": b, "fail_at": -1})
+    cases.append({"kind": "retain", "body": B3.deep_bodies()[2], "fail_at": 1})
     for j in range(3):
         cases.append({"kind": "retain", "body": ["r"], "fail_at": j})
         cases.append({"kind": "retain", "body": ["c1", "r"], "fail_at": j})
@@ -2046,6 +2052,7 @@ def snapshot_globals():
 # ============================================================================= entry points (streams are added below)
 
 PASS2 = ["argcombo", "errors", "gradmode", "duck", "copies", "ownership", "interleave"]
+PASS3 = ["static", "torchb", "sig", "effects"]
 
 
 def guarded(ctx: Ctx, name, fn):
@@ -2076,6 +2083,11 @@ def run(ctx: Ctx):
     guarded(ctx, "regime", lambda: stream_regime(ctx))
     guarded(ctx, "alias", lambda: stream_alias(ctx))
     guarded(ctx, "reuse", lambda: stream_reuse(ctx))
+    from . import util_c06c as B3
+    guarded(ctx, "static", lambda: B3.stream_static(ctx))
+    guarded(ctx, "torchb", lambda: B3.stream_torchb(ctx))
+    guarded(ctx, "sig", lambda: B3.stream_sig(ctx))
+    guarded(ctx, "effects", lambda: B3.stream_effects(ctx, names))
     from . import util_c06b as B2
     for nm2 in PASS2:
         guarded(ctx, nm2, (lambda f: lambda: f(ctx))(getattr(B2, "stream_" + nm2)))
@@ -2108,7 +2120,8 @@ def search(ctx: Ctx):
         for st in (lambda: stream_handled(ctx, names), lambda: stream_tf(ctx, names), lambda: stream_retain(ctx),
                    lambda: stream_ctor(ctx), lambda: stream_unary(ctx), lambda: stream_regime(ctx), lambda: stream_purity(ctx),
                    lambda: stream_persistent(ctx), lambda: stream_alias(ctx), lambda: stream_reuse(ctx)) + tuple(
-                (lambda f: lambda: f(ctx))(getattr(__import__("harness.util_c06b", fromlist=["x"]), "stream_" + n2)) for n2 in PASS2):
+                (lambda f: lambda: f(ctx))(getattr(__import__("harness.util_c06b", fromlist=["x"]), "stream_" + n2)) for n2 in PASS2) + tuple(
+                (lambda f: lambda: f(ctx))(getattr(__import__("harness.util_c06c", fromlist=["x"]), "stream_" + n3)) for n3 in PASS3 if n3 != "static"):
             st()
             if ctx.failures:
                 return
@@ -2137,6 +2150,9 @@ def replay(ctx: Ctx, case) -> bool:
             compare_handled(ctx, c, ex, ctx.driver.run(ex["lines"]))
     elif kind == "unary":
         check_unary(ctx, c)
+    elif kind in ("static", "torchb", "sig", "effects"):
+        from . import util_c06c as B3
+        getattr(B3, "stream_" + kind)(ctx)
     elif kind in PASS2:
         from . import util_c06b as B2
         getattr(B2, "stream_" + kind)(ctx)
@@ -2148,7 +2164,8 @@ def replay(ctx: Ctx, case) -> bool:
          "regime": lambda: stream_regime(ctx), "tf": lambda: stream_tf(ctx, nm), "retain": lambda: stream_retain(ctx),
          "handled": lambda: stream_handled(ctx, nm), "ctor": lambda: stream_ctor(ctx), "unary": lambda: stream_unary(ctx),
          "purity": lambda: stream_purity(ctx), "bcast": lambda: stream_bcast(ctx),
-         **{n2: (lambda n2=n2: getattr(__import__("harness.util_c06b", fromlist=["x"]), "stream_" + n2)(ctx)) for n2 in PASS2}}[which]()
+         **{n2: (lambda n2=n2: getattr(__import__("harness.util_c06b", fromlist=["x"]), "stream_" + n2)(ctx)) for n2 in PASS2},
+         **{n3: (lambda n3=n3: getattr(__import__("harness.util_c06c", fromlist=["x"]), "stream_" + n3)(ctx)) for n3 in PASS3}}[which]()
     elif kind == "regime":
         check_regime(ctx, c)
     elif kind == "regime2":
